@@ -32,7 +32,7 @@ Rf == <<239, 191, 189>>   Rg == <<240, 159, 152, 128>>
 Pool == << Ra, Ra \o Rb, Rb, Rb \o Ra, Ra \o Rb \o Ra, Rz, Ra \o Rz, Rz \o Ra, Rs, Ra \o Rs, Re, Rf, Rg \o Ra, Ra \o Rb \o Rz, Rb \o Rz \o Rb, Ra \o Ra \o Rb, Rb \o Ra \o Rb \o Ra,
            <<97, 0, 98>> >>      \* (a pattern with U+0000 inside: no rune value is free to serve as a sentinel)
 \* in "bytes" mode three more patterns that are NOT valid UTF-8 (a stray continuation byte inside, alone, and 0xFF)
-BadPats == << <<97, 128, 98>>, <<128>>, <<255, 97>> >>
+BadPats == << <<97, 128, 98>>, <<128>>, <<255, 97>>, <<158, 98>> >>
 FullPool == IF Mode = "bytes" THEN Pool \o BadPats ELSE Pool
 \* (byte texts are combined with the patterns whose bytes occur in them: a, zhong, a-zhong, shi, U+FFFD and the three bad ones)
 PoolIdx == IF Mode = "bytes" THEN {1, 6, 7, 9, 12} \cup (Len(Pool) + 1..Len(Pool) + Len(BadPats)) ELSE 1..Len(Pool)
@@ -42,7 +42,7 @@ AsSeq(S) == SX!SetToSortSeq(S, LAMBDA a, b : a < b)
 \* only the runes that occur in the chosen patterns plus one foreign rune make interesting texts
 Texts == IF Mode = "valid" THEN {Flat(rs) : rs \in SeqsUpTo({Ra, Rb, Rz, Rs}, MaxText)}
          ELSE \* 193 161 (C1 A1) is an overlong two-byte form of "a": it must not be read as "a"
-              SeqsUpTo({97, 98, 128, 228, 184, 173, 255, 239, 191, 189, 193, 161}, MaxText)
+              SeqsUpTo({97, 98, 128, 158, 228, 184, 173, 255, 239, 191, 189, 193, 161}, MaxText)     \* (158 = 255 - "a")
 
 PatOf(S) == LET q == AsSeq(S) IN [j \in 1..Len(q) |-> FullPool[q[j]]]
 IsAt(t, p, i) == i + Len(p) <= Len(t) /\ SubSeq(t, i + 1, i + Len(p)) = p
